@@ -113,6 +113,7 @@ class Ctx:
         self.max_steps = max_steps
         self.assumptions: List[Any] = []  # every constraint of the path, in order
         self.notes: dict = {}
+        self.domains: dict = {}  # ast id of an independent selector variable -> frozenset of its possible values
         self.decided: dict = {}  # ast id of a decided condition -> outcome
         self._keep: List[Any] = []  # keeps those terms alive so that ids stay unique
         self.implied = 0
@@ -167,6 +168,45 @@ class Ctx:
         return self.model
 
     # -- decisions -------------------------------------------------------------------------
+    def declare_selector(self, zint: Any, values: Any) -> None:
+        """An integer selector with a small finite domain that no constraint relates to any other symbol: conditions
+        `selector in S` are then decided by domain bookkeeping, the solver only records them."""
+        vals = frozenset(int(v) for v in values)
+        self.add(z3.Or([zint == v for v in sorted(vals)]))
+        self.domains[zint.get_id()] = vals
+        self._keep.append(zint)
+
+    def branch_sel(self, cond: Any, var_id: int, true_set: Any, negated: bool) -> bool:
+        """branch() for a condition of the form (selector in true_set) [xor negated]."""
+        dom = self.domains.get(var_id)
+        if dom is None:
+            return self.branch(cond)
+        self._tick()
+        inside = dom & true_set
+        outside = dom - true_set
+        t_dom, f_dom = (outside, inside) if negated else (inside, outside)
+        if not f_dom:
+            return True
+        if not t_dom:
+            return False
+        if self.pos < len(self.prefix):
+            d = self.prefix[self.pos]
+            if not isinstance(d, bool):
+                raise Unsupported("non-deterministic re-execution (expected branch decision)")
+            self.pos += 1
+        else:
+            d = True
+            self.pending.append(self.prefix + [False])
+            self.prefix.append(True)
+            self.pos += 1
+            self.stats.decisions += 1
+        self.domains[var_id] = t_dom if d else f_dom
+        c = cond if d else z3.Not(cond)
+        self.s.add(c)
+        self.assumptions.append(c)
+        self.model = None
+        return d
+
     def branch(self, cond: Any) -> bool:
         """Decide a boolean z3 term; forks when both outcomes are feasible."""
         if isinstance(cond, bool):
@@ -339,15 +379,20 @@ def cur() -> Ctx:
 
 
 class SymBool:
-    __slots__ = ("z",)
+    __slots__ = ("z", "sel")
 
-    def __init__(self, z: Any):
+    def __init__(self, z: Any, sel: Any = None):
         self.z = z
+        self.sel = sel  # (selector ast id, frozenset of values, negated) when the condition is 'selector in set'
 
     def __bool__(self) -> bool:
+        if self.sel is not None:
+            return cur().branch_sel(self.z, *self.sel)
         return cur().branch(self.z)
 
     def __invert__(self) -> "SymBool":
+        if self.sel is not None:
+            return SymBool(z3.Not(self.z), (self.sel[0], self.sel[1], not self.sel[2]))
         return SymBool(z3.Not(self.z))
 
     def __and__(self, o: Any) -> Any:
@@ -380,6 +425,9 @@ class SymBool:
 
     def __repr__(self) -> str:
         return "SymBool"
+
+
+_CMP_MEMO: dict = {}
 
 
 def _nonfinite_float(o: Any) -> bool:
@@ -579,6 +627,14 @@ class SymNum:
                 return f(0, 1) is True and f(1, 0) is True  # only != holds against NaN
             big = 1 if o > 0 else -1
             return bool(f(0, big))  # any finite value compares with +-inf like 0 does
+        if type(o) is int and -1 <= o <= 1 << 15:
+            # comparisons with small literal ints dominate the parser/tokenizer runs: memoise the terms
+            key = (self.z.get_id(), o, f.__code__.co_code)
+            hit = _CMP_MEMO.get(key)
+            if hit is None:
+                hit = (self.z, f(self.z, z3.RealVal(o)))
+                _CMP_MEMO[key] = hit
+            return SymBool(hit[1])
         lo = SymNum.lift(o)
         if lo is None:
             return default
@@ -694,19 +750,100 @@ class SymInt(SymNum):
     def __init__(self, z: Any):
         super().__init__(z, True)
 
+    _MASKS: dict = {}
+
     def _mask(self, o: Any):
-        if not isinstance(o, int) or isinstance(o, bool):
+        if type(o) is not int:
             return NotImplemented
-        bits = [1 << k for k in range(32) if o & (1 << k)]
-        if not bits:
-            return 0
-        return SymNum(z3.If(z3.Or([self.z == b for b in bits]), self.z, z3.RealVal(0)), True)
+        key = (self.z.get_id(), o)
+        hit = SymInt._MASKS.get(key)
+        if hit is None:
+            bits = [1 << k for k in range(32) if o & (1 << k)]
+            if not bits:
+                return 0
+            # (the key keeps self.z alive, so the id stays unique)
+            hit = (self.z, z3.If(z3.Or([self.z == b for b in bits]), self.z, z3.RealVal(0)))
+            SymInt._MASKS[key] = hit
+        return SymNum(hit[1], True)
 
     def __and__(self, o):
         return self._mask(o)
 
     def __rand__(self, o):
         return self._mask(o)
+
+
+class MaskedSel:
+    """`mask & selector` for a one-hot selector: only its truthiness / comparison with 0 is meaningful."""
+
+    __slots__ = ("sel", "allowed", "term")
+
+    def __init__(self, sel: "SelInt", allowed: Any, term: Any):
+        self.sel, self.allowed, self.term = sel, allowed, term
+
+    def _b(self, negated: bool) -> SymBool:
+        return SymBool(z3.Not(self.term) if negated else self.term, (self.sel.vid, self.allowed, negated))
+
+    def __ne__(self, o: Any) -> Any:  # type: ignore[override]
+        return self._b(False) if type(o) is int and o == 0 else NotImplemented
+
+    def __eq__(self, o: Any) -> Any:  # type: ignore[override]
+        return self._b(True) if type(o) is int and o == 0 else NotImplemented
+
+    def __bool__(self) -> bool:
+        return bool(self._b(False))
+
+    __hash__ = None  # type: ignore[assignment]
+
+
+class SelInt(SymInt):
+    """An integer selector declared with Ctx.declare_selector (one-hot token kinds etc.)."""
+
+    __slots__ = ("zint", "vid")
+    _TERMS: dict = {}
+
+    def __init__(self, zint: Any):
+        super().__init__(z3.ToReal(zint))
+        self.zint = zint
+        self.vid = zint.get_id()
+
+    def _term(self, key: Any, build: Callable[[], Any]) -> Any:
+        k = (self.vid, key)
+        hit = SelInt._TERMS.get(k)
+        if hit is None:
+            hit = (self.zint, build())
+            SelInt._TERMS[k] = hit
+        return hit[1]
+
+    def is_in(self, values: Any) -> SymBool:
+        vs = frozenset(values)
+        return SymBool(self._term(("in", vs), lambda: z3.Or([self.zint == v for v in sorted(vs)])), (self.vid, vs, False))
+
+    def __eq__(self, o: Any) -> Any:  # type: ignore[override]
+        if type(o) is int:
+            return SymBool(self._term(("eq", o), lambda: self.zint == o), (self.vid, frozenset((o,)), False))
+        return SymInt.__eq__(self, o)
+
+    def __ne__(self, o: Any) -> Any:  # type: ignore[override]
+        if type(o) is int:
+            return SymBool(z3.Not(self._term(("eq", o), lambda: self.zint == o)), (self.vid, frozenset((o,)), True))
+        return SymInt.__ne__(self, o)
+
+    def _mask(self, o: Any) -> Any:
+        if type(o) is not int:
+            return NotImplemented
+        bits = frozenset(1 << k for k in range(32) if o & (1 << k))
+        if not bits:
+            return 0
+        return MaskedSel(self, bits, self._term(("in", bits), lambda: z3.Or([self.zint == b for b in sorted(bits)])))
+
+    def __and__(self, o: Any) -> Any:
+        return self._mask(o)
+
+    def __rand__(self, o: Any) -> Any:
+        return self._mask(o)
+
+    __hash__ = SymInt.__hash__
 
 
 # ------------------------------------------------------------------------------------------------
